@@ -118,6 +118,7 @@ def points_for(rng, comp, npts):
 def run_case(ctx, res, case, lines, post):
     import random
     rng = random.Random(case['fseed'])
+    grown_before = res.branch_hits.get('input-domain-grown-between-refinements', 0) if hasattr(res, 'branch_hits') else 0
     f_real = make_f(random.Random(case['fseed'] + 1), case['nin'], case['nout'], case['kind'])
     cur = {'f': f_real}
 
@@ -259,7 +260,11 @@ def run_case(ctx, res, case, lines, post):
             res.hit('passes-through-training-points-' + mode)
     # the surrogate is linear in the model's outputs: surrogate(2 f - 3 g) = 2 surrogate(f) - 3 surrogate(g) for the same
     # activation history (outputs without normalisation, so that the statement is about the surrogate itself)
-    if case['fseed'] % 3 == 0 and all(nm is None for nm in case['norms_out']):
+    # (not for histories in which an input domain was moved in between: the twins below replay the history on the ORIGINAL domains,
+    #  their grids would differ from the component's and the three surrogates would not be comparable — a false alarm of seed 0
+    #  on the unchanged tree, corrected)
+    grew = bool(res.branch_hits.get('input-domain-grown-between-refinements', 0) > grown_before) if hasattr(res, 'branch_hits') else False
+    if case['fseed'] % 3 == 0 and all(nm is None for nm in case['norms_out']) and not grew:
         g = make_f(random.Random(case['fseed'] + 11), case['nin'], case['nout'], 'rational')
 
         def h(alpha, x):
